@@ -1254,10 +1254,16 @@ def run_cases(ps, body, methods, modes_key, ctx=None):
     schema = schemathesis.openapi.from_dict(raw)
     op = schema[path][method.upper()]
     cfg = ctx.get("cfg")
+    # the configured methods reach the generator the way the CLI hands them over: the option accepts any spelling
+    # (`--experimental-coverage-unexpected-methods=GET,Post`) and its callback normalises it; the model and the document
+    # reading work on lower-case tokens, so the spelling given here must make no difference
+    from schemathesis.cli.commands.run.validation import convert_http_methods
+    as_given = None if cfg is None else [m.upper() if i % 2 == 0 else m.capitalize() for i, m in enumerate(sorted(cfg))]
+    real_cfg = convert_http_methods(None, None, as_given)
     out, err, objs = [], None, []
     with recording_cover_calls() as calls:
         try:
-            for c in _iter_coverage_cases(op, list(MODES[modes_key]), None if cfg is None else set(cfg)):
+            for c in _iter_coverage_cases(op, list(MODES[modes_key]), real_cfg):
                 d = c.meta.phase.data
                 objs.append(c)
                 conts, vals = {}, {}
